@@ -40,6 +40,8 @@ def legacy_specs(P: str = "G", runtime_only: bool = False) -> list[CS]:
                 FS("kwargs", "child", f"List[{N}]", "list", (N,), default="field(default_factory=list)"),
             ],
         ),
+        # a leaf subclass that nevertheless has a child (fits narrowly typed fields such as Lst.opt)
+        CS(f"{P}Wrap", (f"{P}Leaf",), [FS("inner", "child", f"{N} | None", "opt", (N,), default="None")]),
         # a class that is not defined at module top level
         CS(f"{P}Inner", (N,), [FS("v", "prop", "int", "int", default="0"), FS("kid", "child", f"{N} | None", "opt", (N,), default="None")], local=True),
         # a node class that is falsy while it has no statements (a header child may still be present)
